@@ -553,6 +553,7 @@ func genCase(t *rapid.T) Case {
 
 	var gps []genPkg
 	usedDirs := map[string]bool{} // mapped dir -> used (as package)
+	nameDiffers := 0
 	for i := 0; i < n; i++ {
 		var gp genPkg
 		if i == 0 && gen.Range(t, "root", 0, 2) == 0 {
@@ -577,6 +578,15 @@ func genCase(t *rapid.T) Case {
 			}
 			gp.dir = dir
 			gp.name = mapPath(lastElem(dir))
+			if gen.Chance(t, "nameDiffers", 30) {
+				// the package clause need not repeat the directory name (store-v2 / package store);
+				// Require lines follow the import PATH (seeded change C08-7)
+				gp.name = fmt.Sprintf("pkn%d", i)
+				if j := strings.IndexAny(lastElem(dir), "-._"); j > 0 {
+					gp.name = lastElem(dir)[:j] + "pkg" // never a Go keyword
+				}
+				nameDiffers++
+			}
 		}
 		usedDirs[mapPath(gp.dir)] = true
 		gp.ip = c.Mod.Path
